@@ -21,7 +21,7 @@ REQUIRED = ['backends/gdb_plugin/plugin.py:Plugin.process_message', 'backends/gd
 
 def plan(tier, seed):
     if tier == 'quick':
-        return [{'n': 12, 'gdb_shim': True, 'len': [20, 150]} for _ in range(14)] + [{'mode': 'tierb', 'n': 2, 'gdb_shim': True, 'len': [20, 120]} for _ in range(2)]
+        return [{'n': 50, 'gdb_shim': True, 'len': [20, 150]} for _ in range(14)] + [{'mode': 'tierb', 'n': 3, 'gdb_shim': True, 'len': [20, 120]} for _ in range(2)]
     return [{'n': 300, 'gdb_shim': True, 'len': [20, 300]} for _ in range(56)] + [{'mode': 'tierb', 'n': 15, 'gdb_shim': True, 'len': [20, 300]} for _ in range(8)]
 
 
